@@ -5,6 +5,7 @@ From Salsa.gen Require Import Kernels.
 From Salsa.Kern Require Import K4_Stamp.
 From Salsa.Cycle Require Import StampK Model ModelProofs.
 From Salsa.Cycle Require Examples.
+From Salsa.Cycle Require EpochInv EpochTop EpochExamples.
 
 (* The translated counter (src/cycle.rs IterationStamp::increment_iteration, MAX_ITERATIONS):
    the increment fails exactly at iteration MAX_ITERATIONS = 200. *)
@@ -73,3 +74,90 @@ Proof. exact Examples.ex15_run. Qed.
 Example C15_model_runs :
   Examples.count_runs (1, 0) (Examples.final_of Examples.ex15_prog Examples.ex14_iv [COGet (1, 0)]) = 201%nat.
 Proof. exact Examples.ex15_runs. Qed.
+
+
+(* ---------------------------------------------------------------- without the epoch hypothesis
+   FINDING: [same_epoch_rounds c] is too strong when c <> 0.  A trip whose only cycle head is the
+   loop's own node reports hm = stamp_default, whose cancellation count is 0, whatever the epoch:
+   after one COBump the hypothesis of C15_bounded_partial is false (so that theorem is vacuous
+   there, not wrong).  Witness: the two-node cycle of Examples.ex12_prog, node (1,0), epoch 1. *)
+Theorem C15_same_epoch_rounds_too_strong :
+  ~ same_epoch_rounds Examples.ex12_prog Examples.ex_strat Examples.ex_cinit 12
+      (clevel Examples.ex12_prog Examples.ex_strat Examples.ex_cinit 12 12) (1, 0) 1.
+Proof. exact EpochExamples.same_epoch_rounds_too_strong. Qed.
+Check C15_same_epoch_rounds_too_strong :
+  ~ same_epoch_rounds Examples.ex12_prog Examples.ex_strat Examples.ex_cinit 12
+      (clevel Examples.ex12_prog Examples.ex_strat Examples.ex_cinit 12 12) (1, 0) 1.
+
+(* What IS an invariant of the model — for all programs, strategies and histories (writes,
+   cancellation bumps, panics, nested cycles, every fuel) — is [EpochTop.epoch_inv strat s]
+   (Cycle/EpochInv.v, [SI]): every memo carries a well-formed stamp; a provisional memo of the
+   current revision and cancellation epoch lists only cycle heads whose stamps are well-formed
+   stamps of the current epoch and whose own memos are final, poisoned or current.  It holds of
+   the initial database, is preserved by every operation, and (by the same induction over the fuel
+   levels, for every outcome: value, panic, out-of-fuel) at every intermediate state of a Get. *)
+Theorem C15_epoch_reachable : forall prog strat cinit nodes fuel iv idur ops,
+  EpochTop.epoch_inv strat (fst (crun_ops prog strat cinit nodes fuel (cinit_db iv idur) ops)).
+Proof. exact EpochTop.epoch_inv_reachable. Qed.
+Check C15_epoch_reachable : forall prog strat cinit nodes fuel iv idur ops,
+  EpochTop.epoch_inv strat (fst (crun_ops prog strat cinit nodes fuel (cinit_db iv idur) ops)).
+Print Assumptions C15_epoch_reachable.
+
+Theorem C15_epoch_step : forall prog strat cinit nodes fuel s o,
+  EpochTop.epoch_inv strat s -> EpochTop.epoch_inv strat (fst (cstep prog strat cinit nodes fuel s o)).
+Proof. exact EpochTop.epoch_inv_step. Qed.
+Check C15_epoch_step : forall prog strat cinit nodes fuel s o,
+  EpochTop.epoch_inv strat s -> EpochTop.epoch_inv strat (fst (cstep prog strat cinit nodes fuel s o)).
+Print Assumptions C15_epoch_step.
+
+(* C15_bounded, no epoch hypothesis: from any state satisfying the invariant, the fixpoint loop
+   of a recovering node, run against the model's own lower levels, with its own fuel above
+   MAX_ITERATIONS + 1 - iteration, never reports out-of-fuel unless a trip (started in an
+   invariant state) does: at most MAX_ITERATIONS + 1 - iteration executions of the body. *)
+Theorem C15_bounded : forall prog strat cinit nodes fuel q,
+  recovers (strat_of strat q) = true ->
+  (forall ls1 s1, EpochTop.epoch_inv strat s1 ->
+     snd (round prog strat cinit nodes (clevel prog strat cinit nodes fuel) q ls1 s1) <> CFuel) ->
+  forall k ls s, EpochTop.epoch_inv strat s -> loop_inv (c_ccount s) ls -> (trips_left ls < k)%nat ->
+  snd (iter_loop prog strat cinit k nodes (clevel prog strat cinit nodes fuel) q ls s) <> CFuel.
+Proof. exact EpochTop.epoch_loop_bounded. Qed.
+Check C15_bounded : forall prog strat cinit nodes fuel q,
+  recovers (strat_of strat q) = true ->
+  (forall ls1 s1, EpochTop.epoch_inv strat s1 ->
+     snd (round prog strat cinit nodes (clevel prog strat cinit nodes fuel) q ls1 s1) <> CFuel) ->
+  forall k ls s, EpochTop.epoch_inv strat s -> loop_inv (c_ccount s) ls -> (trips_left ls < k)%nat ->
+  snd (iter_loop prog strat cinit k nodes (clevel prog strat cinit nodes fuel) q ls s) <> CFuel.
+Print Assumptions C15_bounded.
+
+Theorem C15_diverging_panics : forall prog strat cinit nodes fuel q,
+  recovers (strat_of strat q) = true ->
+  (forall ls1 s1, EpochTop.epoch_inv strat s1 -> exists s' hm v rv hs,
+     round prog strat cinit nodes (clevel prog strat cinit nodes fuel) q ls1 s1 = (s', COk (RIterate hm v rv hs))) ->
+  forall k ls s, EpochTop.epoch_inv strat s -> loop_inv (c_ccount s) ls -> (trips_left ls < k)%nat ->
+  exists s', iter_loop prog strat cinit k nodes (clevel prog strat cinit nodes fuel) q ls s = (s', CPanic (PB PTooMany)).
+Proof. exact EpochTop.epoch_loop_diverging. Qed.
+Check C15_diverging_panics : forall prog strat cinit nodes fuel q,
+  recovers (strat_of strat q) = true ->
+  (forall ls1 s1, EpochTop.epoch_inv strat s1 -> exists s' hm v rv hs,
+     round prog strat cinit nodes (clevel prog strat cinit nodes fuel) q ls1 s1 = (s', COk (RIterate hm v rv hs))) ->
+  forall k ls s, EpochTop.epoch_inv strat s -> loop_inv (c_ccount s) ls -> (trips_left ls < k)%nat ->
+  exists s', iter_loop prog strat cinit k nodes (clevel prog strat cinit nodes fuel) q ls s = (s', CPanic (PB PTooMany)).
+Print Assumptions C15_diverging_panics.
+
+(* execute is the only place a loop is started: from an invariant state, with the memo it is
+   handed (none, or the table's), and with the model's LOOP_FUEL, it never reports out-of-fuel
+   unless a trip does *)
+Theorem C15_execute_bounded : forall prog strat cinit nodes fuel q old s,
+  recovers (strat_of strat q) = true ->
+  EpochTop.epoch_inv strat s -> (old = None \/ old = c_memo s q) ->
+  (forall ls1 s1, EpochTop.epoch_inv strat s1 ->
+     snd (round prog strat cinit nodes (clevel prog strat cinit nodes fuel) q ls1 s1) <> CFuel) ->
+  snd (execute_iterate prog strat cinit nodes (clevel prog strat cinit nodes fuel) q old s) <> CFuel.
+Proof. exact EpochTop.epoch_execute_bounded. Qed.
+Check C15_execute_bounded : forall prog strat cinit nodes fuel q old s,
+  recovers (strat_of strat q) = true ->
+  EpochTop.epoch_inv strat s -> (old = None \/ old = c_memo s q) ->
+  (forall ls1 s1, EpochTop.epoch_inv strat s1 ->
+     snd (round prog strat cinit nodes (clevel prog strat cinit nodes fuel) q ls1 s1) <> CFuel) ->
+  snd (execute_iterate prog strat cinit nodes (clevel prog strat cinit nodes fuel) q old s) <> CFuel.
+Print Assumptions C15_execute_bounded.
